@@ -48,10 +48,13 @@ CLASS = {
                 "C06_termination_refuted, C06_witness_opt/neg/exact/mutual", "fixes/C06-1-left-recursion-check-expr.patch"),
     "tagrep": ("ParserNode::filter_map_top_down (meta/src/parser.rs) does not descend into node tags (grammar-extras): repetitions and choices "
                "under a tag are never validated", "C06_witness_tag", "fixes/C06-2-node-tag-traversal.patch"),
-    "leftrec+tagrep": ("accepted although the repaired model rejects it", "C06_termination_refuted", "fixes/C06-1-left-recursion-check-expr.patch"),
+    "missed-check": ("accepted although the repaired model rejects it", "C06_termination_refuted", "fixes/C06-1-left-recursion-check-expr.patch"),
     "ws": ("the implicit WHITESPACE / COMMENT skip re-enters itself through a non-atomic (`!`) rule reached from WHITESPACE / COMMENT; "
            "check_expr knows nothing about implicit calls", "C06_termination_fixed_refuted, C06_witness_ws", None),
     "other": ("an accepted grammar without stack built-ins does not terminate and is in none of the analysed classes", None, None),
+    "acceptance": ("a grammar that satisfies the hypotheses of C06_acceptance (well-formed names, legal counts, every unbounded-repetition body, "
+                   "WHITESPACE / COMMENT body and non-final alternative starts with a character, no cycle of unguarded references) is rejected",
+                   "C06_acceptance_any", None),
 }
 KNOWN_CLASS_ID = {"ws": "C06-ws-nonatomic"}
 
@@ -88,8 +91,8 @@ def plan(tier, seed):
     if tier == "quick":
         return {"": ["nearmiss 4", "random 1500 %d 4" % (seed * 10 + 1), "random 1500 %d 3" % (seed * 10 + 2)],
                 "extras": ["nearmiss 3", "random 1200 %d 3" % (seed * 10 + 3)]}, 4
-    return {"": ["nearmiss 5"] + ["random 12000 %d 5" % (seed * 100 + i) for i in range(6)],
-            "extras": ["nearmiss 5"] + ["random 12000 %d 5" % (seed * 100 + 50 + i) for i in range(4)]}, 5
+    return {"": ["nearmiss 5"] + ["random 40000 %d 5" % (seed * 100 + i) for i in range(9)],
+            "extras": ["nearmiss 5"] + ["random 40000 %d 5" % (seed * 100 + 50 + i) for i in range(5)]}, 5
 
 
 def run_cases(jobs):
@@ -194,7 +197,7 @@ def run(tier, seed, replay=None):
     by = {}
     for m in mism:
         if m["kind"] == "spec":
-            mm = re.search(r"class=([a-z+]+)", m["expected"])
+            mm = re.search(r"class=([a-z+-]+)", m["expected"])
             key = ("spec", mm.group(1) if mm else "other")
         else:
             key = (m["kind"], "")
@@ -216,6 +219,12 @@ def run(tier, seed, replay=None):
                "observation_legend": "overflow = the child died on a signal (native stack overflow); budget = one parse used more than 0.4 s of CPU; "
                                      "limit = pest reported `call limit reached` (100M calls)",
                "cases_in_class": count, "suggested_fix": patch}
+        if cls == "acceptance":
+            spec_classes.add(cls)
+            rep["theorem_or_correspondence"] = "C06 (<=) on the real code: the hypotheses of C06_acceptance hold => parse_and_optimize accepts"
+            res.violation("a well-formed grammar is rejected by the real front end (%s); smallest witness %s [%s]: verdict `%s` (%d cases)" % (
+                desc, cp["grammar"], rep["features"], worst["impl"], count), rep)
+            continue
         kid = KNOWN_CLASS_ID.get(cls)
         if kid and kid in known:
             res.known_finding("class=%s witness=%s -> %s (%d cases)" % (kid, cp["grammar"][:200], worst["impl"], count))
@@ -267,6 +276,7 @@ def run(tier, seed, replay=None):
         "nonterminating_observed": stats.get("nonterminating", 0),
         "runner_cases": stats.get("cases", 0),
         "theorem_tested_on": stats.get("thm_checked", 0),
+        "acceptance_hypotheses_held_on": stats.get("acceptance_checked", 0),
         "mismatches": len(mism),
         "implementation_state": {"fix_leftrec": fix_lr, "fix_tag": fix_tag},
         "classes": {k: v for k, v in stats.items() if str(k).startswith("class/")},
